@@ -22,7 +22,7 @@ ASSUMPTIONS = ['the molecule consensus is the C13 vote restricted to positions w
                'context letters: CG->z, C[ACT]G->x, C[ACT][ACT]->h, anything truncated by the contig end or containing a non-ACGT base -> "."']
 MIN_NONTRIVIAL = {'quick': 200, 'thorough': 25000}
 REQUIRED_MONITORS = ['obs:call_dict_entries', 'obs:reads_with_XM', 'ctx:z', 'ctx:x', 'ctx:h', 'ctx:upper', 'ctx:dot', 'edge:contig_end_calls',
-                     'strand:reverse', 'convention:F', 'convention:R', 'history:caller_reused_on_other_reference', 'obs:reads_of_molecules_without_calls', 'lib:deep_molecules']
+                     'strand:reverse', 'convention:F', 'convention:R', 'history:caller_reused_on_other_reference', 'obs:reads_of_molecules_without_calls', 'lib:deep_molecules', 'lib:reads_with_deletion']
 SHARD_TIMEOUT = {'quick': 900, 'thorough': 5400}
 
 
@@ -134,9 +134,20 @@ def one_reference(case, acc, r, taps, rnd):
                     seq.append(c if c != 'N' else r.choice('ACGT'))
             seq = ''.join(seq)
             md, nm = md_nm(sub, seq)
+            cigar = f'{len(seq)}M'
+            if not deep and len(seq) >= 16 and r.random() < 0.15:
+                # a deletion inside the read: the aligned bases (and the per-read call string) skip the deleted reference bases
+                o_ = r.randint(5, len(seq) - 8)
+                d_ = r.randint(1, 3)
+                md1, nm1 = md_nm(sub[:o_], seq[:o_])
+                md2, nm2 = md_nm(sub[o_ + d_:], seq[o_ + d_:])
+                md, nm = md1 + '^' + sub[o_:o_ + d_] + md2, nm1 + nm2 + d_
+                seq = seq[:o_] + seq[o_ + d_:]
+                cigar = f'{o_}M{d_}D{len(seq) - o_}M'
+                acc.count('lib:reads_with_deletion')
             rev = reverse if who == 1 else (not reverse)
             flag = 1 | 2 | (64 if who == 1 else 128) | (16 if rev else 0) | (32 if not rev else 0)
-            recs.append({'name': f'f{fid}', 'flag': flag, 'tid': 0, 'pos': a, 'mapq': 60, 'cigar': f'{len(seq)}M', 'seq': seq,
+            recs.append({'name': f'f{fid}', 'flag': flag, 'tid': 0, 'pos': a, 'mapq': 60, 'cigar': cigar, 'seq': seq,
                          'qual': [r.choice([20, 30, 30, 37]) for _ in seq] if r.random() < 0.5 else [30] * len(seq),
                          'tags': {'MD': md, 'NM': nm, 'SM': 'cell', 'RX': 'ACG'}, 'next_tid': 0, 'next_pos': 0})
         if kind == 'single':
